@@ -107,7 +107,7 @@ impl Fault {
 
 pub const FAULT_KINDS: &[&str] = &[
     "truncate", "zero_fill", "bit_flip", "byte_set", "insert", "delete", "splice", "header_count", "header_type",
-    "entry_type", "entry_len", "key_retype", "number_tag", "number_width", "utf8_poke",
+    "entry_type", "entry_len", "key_retype", "number_tag", "number_width", "utf8_poke", "key_dup",
 ];
 
 const UTF8_POKES: &[&[u8]] = &[
@@ -384,6 +384,14 @@ fn gen_fault(r: &mut Rng, kind: &str, pristine: &[u8], layout: &[Field], other: 
             let off = f.off + r.idx(f.len);
             Fault::new(kind, ByteOp::Set(off, r.pick(UTF8_POKES).to_vec()))
         }
+        "key_dup" if layout.iter().filter(|f| matches!(f.kind, FieldKind::Text { is_key: true })).count() >= 2 => {
+            let keys: Vec<&Field> = layout.iter().filter(|f| matches!(f.kind, FieldKind::Text { is_key: true })).collect();
+            let a = *r.pick(&keys);
+            // prefer a sibling-sized key so that the object ends up with two equal keys
+            let same: Vec<&&Field> = keys.iter().filter(|k| k.len == a.len && k.off != a.off).collect();
+            let b = if !same.is_empty() { **r.pick(&same) } else { *r.pick(&keys) };
+            Fault::new(kind, ByteOp::Set(b.off, pristine[a.off..a.off + a.len.min(b.len)].to_vec()))
+        }
         // the layout offers no such field: fall back to a blind byte substitution
         _ => Fault::new("byte_set", ByteOp::Set(off_near(r), vec![r.below(256) as u8])),
     }
@@ -399,7 +407,7 @@ fn fault_site(f: &Fault) -> usize {
 
 const TEXT_POKES: &[&[u8]] = &[
     b"\\", b"\\u", b"\\u{", b"\\u12", b"\\ud800", b"\\udc00", b"\\ud800\\u", b"\"", b"{", b"}", b"[", b"]", b",", b":", b"-", b".", b"e", b"E+", b"0",
-    b"9999999999999999999999", b"\\x0C", b"\\n", b" ", b"\n", b"\x00", b"\xff", b"\xc3", b"tru", b"nul", b"1e999", b"-0",
+    b"\\udbff", b"\\uDBFF\\uDFFF", b"\\udbff\\udc00", b"\\ud83d\\ude00", b"9999999999999999999999", b"\\x0C", b"\\n", b" ", b"\n", b"\x00", b"\xff", b"\xc3", b"tru", b"nul", b"1e999", b"-0",
 ];
 
 fn gen_text_fault(r: &mut Rng, n: usize) -> Fault {
@@ -568,6 +576,15 @@ impl Corrupt {
                 }
             }
         }
+        // duplicated keys: every key payload copied over every other key payload of the same length
+        let keys: Vec<&Field> = layout.iter().filter(|f| matches!(f.kind, FieldKind::Text { is_key: true }) && f.len > 0).collect();
+        for a in &keys {
+            for b in &keys {
+                if a.off != b.off && a.len == b.len {
+                    run(cx, Fault::new("key_dup", ByteOp::Set(b.off, pristine[a.off..a.off + a.len].to_vec())));
+                }
+            }
+        }
         // lost page: zero-fill aligned windows
         for w in [4usize, 16, 64] {
             let mut a = 0;
@@ -726,7 +743,8 @@ impl Scenario for Corrupt {
             }
             10..=69 => {
                 let cfg = doc_cfg(&mut r);
-                let doc = gen::gen_doc(&mut r, &cfg, 80);
+                // one run in twelve stores a narrow document 20-64 levels deep
+                let doc = if r.chance(1, 12) { let d = r.urange(20, 64); gen::gen_deep_narrow(&mut r, d) } else { gen::gen_doc(&mut r, &cfg, 80) };
                 let other = mval::encode(&gen::gen_doc(&mut r, &cfg, 80));
                 let pristine = mval::encode(&doc);
                 let layout = mval::layout(&pristine);
